@@ -37,6 +37,7 @@ def gen(rng, tier, shape=None):
             "tty": rng.random() < 0.15, "ci": rng.choice(["GITHUB_ACTIONS", "CI", "TRAVIS"]) if rng.random() < 0.08 else None,
             "xdist": rng.choice(["2", "0"]) if rng.random() < 0.12 else None,
             "answers": {c: rng.random() < 0.5 for c in CATS}, "skip": rng.random() < 0.1,
+            "empty_no": rng.random() < 0.3,      # a "no" is given as an empty line (the prompt's default)
             "xfail": rng.random() < 0.1, "dup": rng.random() < 0.2, "unknown": False}
     if rng.random() < 0.04:
         fl = fl + ["bogus"]
@@ -67,6 +68,10 @@ def project(case):
         if case["xfail"]:
             lines += ["@pytest.mark.xfail", f"def test_{c}_x():", "    " + BODY[c][0], ""]
     lines += ["def test_holds():", "    assert 7 == snapshot(7)", "    assert 1 <= snapshot(1)", ""]
+    lines += ["def test_probe():", "    import os", "    v = snapshot(3)",
+              "    open(f'probe_{os.getpid()}.txt', 'w').write(type(v).__name__)", ""]
+    lines += ["@pytest.mark.xfail", "def test_probe_x():", "    import os", "    v = snapshot(3)",
+              "    open(f'probex_{os.getpid()}.txt', 'w').write(type(v).__name__)", "    assert False", ""]
     return "\n".join(lines)
 
 
@@ -99,7 +104,7 @@ def stdin_for(case):
     lines = []
     for c in CATS:
         if c in case["pending"] and c not in fl:
-            lines.append("y" if case["answers"][c] else "n")
+            lines.append("y" if case["answers"][c] else ("" if case.get("empty_no") else "n"))
     return ("\n".join(lines + ["n"] * 4) + "\n").encode()
 
 
@@ -174,7 +179,9 @@ def run_impl(case):
     obs = {"rc": r["rc"], "outcomes": r["outcomes"], "changed": after != src, "after": after,
            "usage_error": r["rc"] == 4 and after == src, "traceback": "Traceback" in r["stderr"],
            "stderr": r["stderr"][-1500:], "stdout_tail": r["stdout"][-1500:],
-           "other_files": sorted(k for k in r["files"] if k not in ("test_a.py", "pyproject.toml"))}
+           "other_files": sorted(k for k in r["files"] if k not in ("test_a.py", "pyproject.toml") and not k.startswith("probe")),
+           "probe": sorted({v.decode() for k, v in r["files"].items() if k.startswith("probe_")}),
+           "probex": sorted({v.decode() for k, v in r["files"].items() if k.startswith("probex_")})}
     try:
         obs["applied"], obs["partial"] = applied_from(after, case)
     except Exception as e:  # noqa: BLE001
@@ -302,6 +309,11 @@ def oracle(case, obs):
             fails.append(("C07", "no_false_failure", f"{name}: all snapshots hold but outcome {outc} (flags {fl})"))
     if any(n.startswith(("test_create", "test_fix")) and not n.endswith("_x") for n in obs["outcomes"]) and obs["rc"] == 0:
         fails.append(("C07", "exit_status", f"wrong snapshots executed but exit status 0 (flags {fl}, active={active})"))
+    # C06: when disabled (flag, CI, xdist, xfail) snapshot(v) returns v itself
+    if not active and obs["probe"] not in ([], ["int"]):
+        fails.append(("C06", "disabled_identity", f"flags {fl} ci={case['ci']} xdist={case['xdist']}: snapshot(3) returned a {obs['probe']}"))
+    if obs["probex"] not in ([], ["int"]):
+        fails.append(("C06", "disabled_identity", f"xfail-marked test: snapshot(3) returned a {obs['probex']}"))
     # C19 three-way
     tw = obs.get("three_way")
     if tw:
